@@ -300,7 +300,7 @@ def _local_partials(n):
         return [(arg, app(fname, a, didx + (k,))) for k, arg in enumerate(a) if arg.rg]
     if op == 'pow':
         raise Untranslatable("derivative of general pow not supported")
-    if op == 'cut':
+    if op in ('cut', 'alias'):
         return [(a[0], 1)]
     if op in ('detach', 'sign', 'var', 'const', 'cmp'):
         return []
@@ -737,8 +737,17 @@ def _t_where(c, a, b):
     return ST(np.frompyfunc(ite, 3, 1)(c.a, a.a, b.a))
 
 
+def alias(x):
+    """value-transparent copy with its OWN identity in the autograd graph (d alias(x) / d x = 1): what a torch op that
+    copies elements (repeat_interleave) returns.  The emitter treats it like `detach`: no Lean text of its own."""
+    x = Node.const(x)
+    return Node('alias', (x,), rg=_grad_on() and x.rg, cv=x.cv, kind=x.kind)
+
+
 def _t_repeat_interleave(x, repeats, dim=None):
-    return ST(np.repeat(_as_st(x).a, repeats, axis=dim))
+    # every copy is a distinct tensor element for autograd (torch.autograd.grad w.r.t. the result sees independent rows)
+    rep = np.repeat(_as_st(x).a, repeats, axis=dim)
+    return ST(np.frompyfunc(alias, 1, 1)(rep)) if rep.size else ST(rep)
 
 
 def _binop(name):
